@@ -508,21 +508,49 @@ Proof.
   - destruct (IH s1 Hs) as (s2 & Hss & Hq). exists s2. split; [econstructor; eassumption | exact Hq].
 Qed.
 
-(** * 7. synchronous mode: the executable scheduler only takes steps of the LTS *)
-Lemma sexec_sound trigs react l s s' : sexec trigs react l s = Some s' -> sstep trigs react s s'.
-Proof.
-  destruct l as [i|]; cbn.
-  - destruct (nth_error (y_threads s) i) as [[|[cmds| |] rest]|] eqn:E; try discriminate; intros H; injection H as <-.
-    + apply Ss_append. exact E.
-    + apply Ss_send. exact E.
-    + apply Ss_reset. exact E.
-  - destruct (y_c s) as [|wr rest] eqn:E; [discriminate|]. intros H; injection H as <-. apply Ss_dispatch. exact E.
-Qed.
+(** * 7. synchronous mode with writing triggers (flushes serialised by syncFlushMu) *)
+Section SyncFacts.
+  Variable trigs : list (list tok).
+  Variable react : nat -> wrecs -> list cmd.
 
-Lemma sexec_all_sound trigs react ls : forall s s', sexec_all trigs react ls s = Some s' -> ssteps trigs react s s'.
-Proof.
-  induction ls as [|l ls IH]; intros s s' H; cbn in H.
-  - injection H as <-. constructor.
-  - destruct (sexec trigs react l s) as [s1|] eqn:E; [|discriminate].
-    econstructor; [apply (sexec_sound _ _ _ _ _ E) | apply IH; exact H].
-Qed.
+  Definition spending (s : ssys) : list event := events (y_fired s) ++ flat_map (ev_kv trigs) (kv (y_c s)).
+
+  Lemma sstep_inv s s' : sstep trigs react s s' ->
+    Permutation (spending s) (spec_events trigs (y_appended s)) ->
+    Permutation (spending s') (spec_events trigs (y_appended s')).
+  Proof.
+    intros H Inv. destruct H; unfold spending in *; cbn [y_c y_threads y_fired y_appended].
+    - unfold flush_msgs. rewrite kv_app, flat_map_app, spec_events_app, app_assoc. apply Permutation_app; [exact Inv|].
+      rewrite (Permutation_flat_map (ev_kv trigs) (flush_ok_kv _ _ _ H1)), <- spec_events_kv. reflexivity.
+    - rewrite <- Inv, H, events_app, <- app_assoc. apply Permutation_app_head.
+      destruct wr as [k rs]. cbn [kv flat_map fst snd]. rewrite flat_map_app. apply Permutation_app_tail.
+      apply events_run_entry.
+  Qed.
+
+  Lemma ssteps_inv s s' : ssteps trigs react s s' ->
+    Permutation (spending s) (spec_events trigs (y_appended s)) ->
+    Permutation (spending s') (spec_events trigs (y_appended s')).
+  Proof. induction 1; intros Inv; [exact Inv|]. apply IHssteps. apply (sstep_inv _ _ H Inv). Qed.
+
+  (** at every reachable state: what has been delivered plus what waits on tpd.c is exactly the specification for
+      everything passed to AppendRecord so far (by callers and by writing triggers alike) *)
+  Theorem sync_invariant callers s : ssteps trigs react (sinit callers) s ->
+    Permutation (events (y_fired s) ++ flat_map (ev_kv trigs) (kv (y_c s))) (spec_events trigs (y_appended s)).
+  Proof. intros H. apply (ssteps_inv _ _ H). cbn. reflexivity. Qed.
+
+  (** hence nothing is ever delivered more often than it was appended, nor to a non-matching trigger *)
+  Theorem sync_never_too_much callers s : ssteps trigs react (sinit callers) s ->
+    forall t k r,
+      count_occ event_eq_dec (events (y_fired s)) (t, k, r) <=
+      if trig_matches trigs t k then count_occ kr_eq_dec (map ckr (y_appended s)) (k, r) else 0.
+  Proof.
+    intros H t k r. pose proof (sync_invariant callers s H) as P.
+    pose proof (proj1 (Permutation_count_occ event_eq_dec _ _) P (t, k, r)) as Hc.
+    rewrite spec_events_kv, count_occ_flat_ev_kv, count_occ_app in Hc. lia.
+  Qed.
+
+  (** and once tpd.c is drained, exactly as often *)
+  Theorem sync_exactly_once callers s : ssteps trigs react (sinit callers) s -> y_c s = [] ->
+    Permutation (events (y_fired s)) (spec_events trigs (y_appended s)).
+  Proof. intros H Hc. pose proof (sync_invariant callers s H) as P. rewrite Hc in P. cbn in P. rewrite app_nil_r in P. exact P. Qed.
+End SyncFacts.
